@@ -2,6 +2,7 @@ package props
 
 import (
 	"fmt"
+	"math"
 	"os"
 	"os/exec"
 	"strings"
@@ -50,9 +51,14 @@ func (r *recValidator) Validate(from, until int64) error {
 
 const winUnit = 100 // one abstract time unit = 100 s
 
+const infDelta = 1000000 // abstract time delta standing for the largest configurable one
+
 func winSecs(x int) int64 {
 	if x == 0 {
 		return 0
+	}
+	if x < 0 { // a negative anchorFrom
+		return int64(x * winUnit)
 	}
 	return int64(concr.BaseTime + x*winUnit)
 }
@@ -140,6 +146,9 @@ func C05(c *ev.Ctx) {
 		}
 		p := decoyParams(wire.Params(concr.SHA256), decoy)
 		p.MaxOperationTimeDelta = uint64(delta * winUnit)
+		if delta == infDelta { // "never expires": the default window end must saturate, not wrap around
+			p.MaxOperationTimeDelta = math.MaxUint64
+		}
 		rec := &recValidator{}
 		e := &env{pc: &wire.Client{Versions: []protocol.Version{wire.NewResolutionVersion(p)}},
 			par: operationparser.New(p, operationparser.WithAnchorTimeValidator(rec)), rec: rec}
@@ -173,6 +182,9 @@ func C05(c *ev.Ctx) {
 			c.Violation("intake-rejects-valid-windowed-request:"+cs.C.Ty, map[string]interface{}{"case": cs.C, "error": perr.Error(), "request": string(req)})
 		} else {
 			want := [2]int64{winSecs(cs.Out.ValidatorArgs[0]), winSecs(cs.Out.ValidatorArgs[1])}
+			if cs.C.Delta == infDelta && cs.C.From != 0 && cs.C.Until == 0 {
+				want[1] = math.MaxInt64
+			}
 			if len(local.calls) != 1 || local.calls[0] != want {
 				c.Violation("time-validator-arguments:"+cs.C.Ty, map[string]interface{}{"case": cs.C, "expected": want, "observed": local.calls,
 					"maxOperationTimeDelta": cs.C.Delta * winUnit, "request": string(req)})
